@@ -76,6 +76,12 @@ class EventRule(BaseRule):
 def run_function(model, fi, rule, self_cls=None, inline=frozenset(), seeds=None, params=None, relevant=None,
                  budget=400000, record_decisions=False, track_faults=False, max_depth=6):
     """Interpret fi's body with symbolic parameters. Returns (outs, interp)."""
+    if inline is None:
+        # default: private helpers of the same class / module reached from fi are interpreted in place, so that extracting a
+        # helper out of fi (or inlining one) does not hide the calls a rule is looking for.  A rule's own `call` hook still comes
+        # first: what it models by name is not inlined.
+        from .rows import helper_closure
+        inline = frozenset(helper_closure(model, [fi]) - {fi.qual})
     it = Interp(model, rule, self_cls if fi.cls else None, fi.module, inline, budget=Budget(budget), max_depth=max_depth)
     it.func_qual = fi.qual
     it.relevant = relevant
